@@ -32,7 +32,7 @@ RULE = ("Generated: every construction algorithm with drawn arguments — Random
         "combinations. Non-trivial = a region with >= 2 partitions, or explicit factories, or n >= 5; distinct = "
         "hash of case.")
 ASSUMPTIONS = ["ValueError from an algorithm for arguments outside its documented domain is a refusal",
-               "cp-t / tucker are generated with num_input_units == num_sum_units (documented precondition)"]
+               "tucker is generated with num_input_units == num_sum_units (documented precondition); cp-t also with different counts: then build_circuit must succeed whenever no partition combines a leaf region with an inner region, and may refuse with ValueError otherwise"]
 
 
 @st.composite
@@ -84,6 +84,9 @@ def _case(draw, tier):
                   "per_scope": draw(st.booleans()), "mixing": draw(st.booleans())}
     if mode == "factories-kro" or mode == "tucker":
         c["build"]["num_sum_units"] = c["build"]["num_input_units"] = min(units, 2)
+    if mode == "cp-t" and draw(st.booleans()):
+        # cp-t with different unit counts is accepted whenever no partition mixes leaf and inner regions
+        c["build"]["num_input_units"] = draw(st.integers(1, 3))
     return c
 
 
@@ -259,7 +262,15 @@ def run_case(case):
     max_ar = max([len(rg.partition_inputs(p)) for p in rg.partition_nodes] + [1])
     if mode in ("tucker", "factories-kro") and Ks ** max_ar > 64:
         raise Refused("kronecker too large for this region graph (harness bound)")
-    with sut(f"build_circuit[{mode}]", refuse=(), sig=""):
+    refuse = ()
+    if mode == "cp-t" and Ki != Ks:
+        leaves = set(rg.inputs)
+        mixed = any(len({ch in leaves for ch in rg.partition_inputs(p)}) > 1 for p in rg.partition_nodes)
+        classes.append(f"cp-t-unequal-units:{'mixed-levels' if mixed else 'same-levels'}")
+        if mixed:
+            # a Hadamard product of Ki-unit leaves and Ks-unit inner regions does not exist: refusal
+            refuse = (ValueError,)
+    with sut(f"build_circuit[{mode}]", refuse=refuse, sig=""):
         sc = rg.build_circuit(**kw)
     view = defs.view_from_circuit(sc)
     if not (defs.is_smooth(view) and defs.is_decomposable(view)):
